@@ -509,3 +509,317 @@ def r18_h(ctx):
                         ', remove(\'{a[1]}\')) no longer equals the parsed group with the same text, so it is not found',
                         line=fd.node.lineno))
     return rr
+
+
+def r18_i(ctx):
+    """the group parser removes exactly one opening and one closing delimiter"""
+    repo = ctx.repo
+    from .model import resolve_locals, effective_method
+    grp = repo.need_cls('data.TexGroup')
+    fds = grp.methods.get('parse')
+    if not fds:
+        raise AnalysisError('TexGroup.parse vanished')
+    fd = effective_method(grp, fds[-1])
+    rr = RuleResult('R18.i', 'the group parser takes the text between exactly one opening and one closing delimiter: the '
+                    'content is the slice [len(begin):-len(end)] of the string (delimiters that also end or start the '
+                    'content -- `{{a}}`, `[[1]]` -- stay)', floor=2)
+    ps = fd.params()
+    sp = ps[1] if len(ps) > 1 else ps[0]
+    # delimiter lengths over the concrete group classes
+    lens_b, lens_e = set(), set()
+    for c in repo.modules['data'].classes.values():
+        if c is not grp and grp in getattr(c, 'mro', []):
+            try:
+                b, e = repo.class_attr(c, 'begin'), repo.class_attr(c, 'end')
+            except Unfoldable:
+                continue
+            if isinstance(b, str) and isinstance(e, str):
+                lens_b.add(len(b))
+                lens_e.add(len(e))
+
+    def derived(e):
+        """does the expression read the string parameter?"""
+        return any(isinstance(x, ast.Name) and x.id == sp for x in ast.walk(e))
+
+    def delim_len(e, which, sign):
+        """is e  len(<x>.<which>)  (sign +1) / -len(<x>.<which>) (sign -1), or the constant all group classes agree on"""
+        if sign < 0:
+            if isinstance(e, ast.UnaryOp) and isinstance(e.op, ast.USub):
+                return delim_len(e.operand, which, 1)
+            if isinstance(e, ast.Constant) and isinstance(e.value, int):
+                return (lens_e if which == 'end' else lens_b) == {-e.value}
+            return False
+        if isinstance(e, ast.Call) and isinstance(e.func, ast.Name) and e.func.id == 'len' and len(e.args) == 1 \
+                and isinstance(e.args[0], ast.Attribute) and e.args[0].attr == which:
+            return True
+        if isinstance(e, ast.Constant) and isinstance(e.value, int):
+            return (lens_b if which == 'begin' else lens_e) == {e.value}
+        return False
+    good, bad = [], []
+    for n in ast.walk(fd.node):
+        if isinstance(n, ast.Subscript) and isinstance(n.slice, ast.Slice) and derived(n.value) and isinstance(n.ctx, ast.Load):
+            sl = n.slice
+            lo = resolve_locals(fd.node, sl.lower) if sl.lower is not None else None
+            hi = resolve_locals(fd.node, sl.upper) if sl.upper is not None else None
+            if sl.step is None and lo is not None and hi is not None and delim_len(lo, 'begin', 1) and delim_len(hi, 'end', -1):
+                good.append(n)
+            elif sl.step is None and ((lo is not None and hi is None and delim_len(lo, 'begin', 1))
+                                      or (lo is None and hi is not None and delim_len(hi, 'end', -1))):
+                good.append(n)      # the two cuts made one after the other
+            else:
+                bad.append((n, 'the slice %s' % norm(n)[:50]))
+        if isinstance(n, ast.Call) and isinstance(n.func, ast.Attribute) and derived(n.func.value):
+            a = n.func.attr
+            if a in ('strip', 'lstrip', 'rstrip'):
+                bad.append((n, '%s() removes every leading/trailing character of the set, not one delimiter' % a))
+            elif a in ('replace', 'translate'):
+                bad.append((n, '%s() rewrites the content' % a))
+            elif a in ('removeprefix', 'removesuffix'):
+                good.append(n)
+            elif a in ('split', 'rsplit', 'partition', 'rpartition', 'find', 'rfind', 'index', 'rindex'):
+                bad.append((n, '%s() cuts at a delimiter found by search, not at the two ends' % a))
+    if not good and not bad:
+        raise AnalysisError('TexGroup.parse: how the content is cut out of the string is not recognised (no slice of the '
+                            'argument): outside the decidable subset of R18.i')
+    for n in good:
+        rr.ob(True, {'content': norm(n)[:70]})
+    for n, why in bad:
+        rr.ob(False, {'content': norm(n)[:70]})
+        rr.fail(Finding('R18.i', 'data', fd.qual, n, 'the group parser does not take the text between exactly one opening and '
+                        'one closing delimiter (%s): a coerced string such as `{{a}}` or `[[1]]` loses part of its content '
+                        'or is cut in the wrong place' % why, line=n.lineno))
+    # the delimiter test that admits the string
+    tests = [n for n in ast.walk(fd.node) if isinstance(n, ast.Call) and isinstance(n.func, ast.Attribute)
+             and n.func.attr in ('startswith', 'endswith') and derived(n.func.value)]
+    kinds = {n.func.attr for n in tests}
+    rr.ob(kinds == {'startswith', 'endswith'}, {'delimiter_tests': sorted(kinds)})
+    if kinds and kinds != {'startswith', 'endswith'}:
+        rr.fail(Finding('R18.i', 'data', fd.qual, tests[0], 'the group parser tests only one end of the string for its '
+                        'delimiter: a string with a missing or mismatched delimiter is accepted', line=tests[0].lineno))
+    elif not kinds:
+        raise AnalysisError('TexGroup.parse: the delimiter tests are not recognised (no startswith/endswith on the argument)')
+    return rr
+
+
+# ---- R18.j: interval analysis of the index normalisation in TexArgs.insert --------------------------------------------
+# bounds: '-inf', '+inf' or (k, c) standing for k*n + c with n = len(self) >= 0 and k in {0, 1}
+
+def _b_le(a, b):
+    """is bound a <= bound b for every n >= 0?  (True / False=not provable)"""
+    if a == '-inf' or b == '+inf':
+        return True
+    if a == '+inf' or b == '-inf':
+        return False
+    (ka, ca), (kb, cb) = a, b
+    if ka == kb:
+        return ca <= cb
+    if ka == 0 and kb == 1:
+        return ca <= cb             # c <= n + c'  holds for all n >= 0 iff c <= c'
+    return False                    # n + c <= c' is not true for all n
+
+
+def _b_min(a, b, side='lo'):
+    """a sound bound for min(a, b): side 'lo' -> a lower bound, side 'hi' -> an upper bound"""
+    if _b_le(a, b):
+        return a
+    if _b_le(b, a):
+        return b
+    if a in ('-inf', '+inf') or b in ('-inf', '+inf'):
+        return '-inf' if side == 'lo' else '+inf'
+    # n + c against c': n + c >= c, so min >= min(c, c'); either operand bounds the minimum from above
+    const, sym = (a, b) if a[0] == 0 else (b, a)
+    return (0, min(const[1], sym[1])) if side == 'lo' else const
+
+
+def _b_max(a, b, side='hi'):
+    if _b_le(a, b):
+        return b
+    if _b_le(b, a):
+        return a
+    if a in ('-inf', '+inf') or b in ('-inf', '+inf'):
+        return '-inf' if side == 'lo' else '+inf'
+    const, sym = (a, b) if a[0] == 0 else (b, a)
+    return const if side == 'lo' else (1, max(const[1], sym[1]))
+
+
+def _b_add(a, b):
+    if a in ('-inf', '+inf'):
+        return a
+    if b in ('-inf', '+inf'):
+        return b
+    k = a[0] + b[0]
+    if k > 1:
+        return None
+    return (k, a[1] + b[1])
+
+
+def r18_j(ctx):
+    """after its normalisation the index of TexArgs.insert lies in [0, len]"""
+    cls = _cls(ctx)
+    from .model import effective_method
+    fds = cls.methods.get('insert')
+    if not fds:
+        raise AnalysisError('TexArgs.insert vanished')
+    fd = effective_method(cls, fds[-1])
+    rr = RuleResult('R18.j', 'when TexArgs.insert normalises its index itself, the normalised index lies in [0, len(self)] '
+                    'for every integer (list.insert clamps below -len to the front and above len to the end), and a '
+                    'subscript self[<index>] sees a value in [0, len)', floor=0)
+    ps = fd.params()
+    if len(ps) < 2:
+        raise AnalysisError('TexArgs.insert has no index parameter')
+    ip = ps[1]
+    N = (1, 0)
+    TOPI = ('-inf', '+inf')
+
+    class Unknown(Exception):
+        pass
+
+    def ev(e, env):
+        """-> (lo, hi) interval of an integer expression"""
+        if isinstance(e, ast.Constant) and isinstance(e.value, int) and not isinstance(e.value, bool):
+            return ((0, e.value), (0, e.value))
+        if isinstance(e, ast.Name):
+            if e.id in env:
+                return env[e.id]
+            raise Unknown(e.id)
+        if isinstance(e, ast.Call) and isinstance(e.func, ast.Name) and e.func.id == 'len' and len(e.args) == 1 \
+                and norm(e.args[0]) == 'self':
+            return (N, N)
+        if isinstance(e, ast.BinOp) and isinstance(e.op, ast.Add):
+            a, b = ev(e.left, env), ev(e.right, env)
+            lo, hi = _b_add(a[0], b[0]), _b_add(a[1], b[1])
+            if lo is None or hi is None:
+                raise Unknown(norm(e))
+            return (lo, hi)
+        if isinstance(e, ast.BinOp) and isinstance(e.op, ast.Sub) and isinstance(e.right, ast.Constant) \
+                and isinstance(e.right.value, int):
+            a = ev(e.left, env)
+            c = (0, -e.right.value)
+            return (_b_add(a[0], c), _b_add(a[1], c))
+        if isinstance(e, ast.Call) and isinstance(e.func, ast.Name) and e.func.id in ('max', 'min') and len(e.args) == 2 \
+                and not e.keywords:
+            a, b = ev(e.args[0], env), ev(e.args[1], env)
+            f = _b_max if e.func.id == 'max' else _b_min
+            return (f(a[0], b[0], 'lo'), f(a[1], b[1], 'hi'))
+        if isinstance(e, ast.IfExp):
+            outs = []
+            for branch, envb in refine(e.test, env):
+                if envb is not None:
+                    outs.append(ev(e.body if branch else e.orelse, envb))
+            return join(outs)
+        raise Unknown(norm(e)[:40])
+
+    def join(vals):
+        lo, hi = vals[0]
+        for a, b in vals[1:]:
+            lo, hi = _b_min(lo, a, 'lo'), _b_max(hi, b, 'hi')
+        return (lo, hi)
+
+    def refine(test, env):
+        """-> [(True, env or None), (False, env or None)] for `<name> <op> <expr>`; None = branch impossible"""
+        if isinstance(test, ast.Compare) and len(test.ops) == 1 and isinstance(test.left, ast.Name) and test.left.id in env:
+            try:
+                r = ev(test.comparators[0], env)
+            except Unknown:
+                return [(True, dict(env)), (False, dict(env))]
+            lo, hi = env[test.left.id]
+            op = test.ops[0]
+            one = (0, 1)
+
+            def setv(lo2, hi2):
+                if lo2 not in ('-inf',) and hi2 not in ('+inf',) and not _b_le(lo2, hi2) and _b_le(hi2, lo2) and lo2 != hi2:
+                    return None
+                e2 = dict(env)
+                e2[test.left.id] = (lo2, hi2)
+                return e2
+            minus1 = lambda b: b if b in ('-inf', '+inf') else (b[0], b[1] - 1)      # noqa: E731
+            plus1 = lambda b: b if b in ('-inf', '+inf') else (b[0], b[1] + 1)       # noqa: E731
+            tighter_hi = lambda old, new: new if _b_le(new, old) else old            # noqa: E731
+            tighter_lo = lambda old, new: new if _b_le(old, new) else old            # noqa: E731
+            if isinstance(op, ast.Lt):
+                return [(True, setv(lo, tighter_hi(hi, minus1(r[1])))), (False, setv(tighter_lo(lo, r[0]), hi))]
+            if isinstance(op, ast.LtE):
+                return [(True, setv(lo, tighter_hi(hi, r[1]))), (False, setv(tighter_lo(lo, plus1(r[0])), hi))]
+            if isinstance(op, ast.Gt):
+                return [(True, setv(tighter_lo(lo, plus1(r[0])), hi)), (False, setv(lo, tighter_hi(hi, r[1])))]
+            if isinstance(op, ast.GtE):
+                return [(True, setv(tighter_lo(lo, r[0]), hi)), (False, setv(lo, tighter_hi(hi, minus1(r[1]))))]
+        return [(True, dict(env)), (False, dict(env))]
+    normalised = [False]
+    sites = []
+
+    def check_uses(node, env):
+        for x in ast.walk(node):
+            if isinstance(x, ast.Subscript) and isinstance(x.ctx, ast.Load) and norm(x.value) == 'self' \
+                    and isinstance(x.slice, ast.Name) and x.slice.id in env and x.slice.id in derived_names:
+                sites.append((x, env[x.slice.id], 'subscript'))
+            if isinstance(x, ast.Call) and isinstance(x.func, ast.Attribute) and x.func.attr == 'insert' and x.args \
+                    and isinstance(x.args[0], ast.Name) and x.args[0].id in env and x.args[0].id in derived_names \
+                    and (norm(x.func.value) == 'super()' or norm(x.func.value) == 'list'):
+                sites.append((x, env[x.args[0].id], 'insert'))
+
+    derived_names = set()
+
+    def run(stmts, env):
+        envs = [env]
+        for st in stmts:
+            nxt = []
+            for e_ in envs:
+                if isinstance(st, ast.Assign) and len(st.targets) == 1 and isinstance(st.targets[0], ast.Name):
+                    nm = st.targets[0].id
+                    # uses inside the value see the environment before the store; conditional expressions refine
+                    if isinstance(st.value, ast.IfExp):
+                        for branch, eb in refine(st.value.test, e_):
+                            if eb is not None:
+                                check_uses(st.value.body if branch else st.value.orelse, eb)
+                    else:
+                        check_uses(st.value, e_)
+                    e2 = dict(e_)
+                    try:
+                        v = ev(st.value, e_)
+                        if any(isinstance(y, ast.Name) and y.id in derived_names | {ip} for y in ast.walk(st.value)):
+                            derived_names.add(nm)
+                            normalised[0] = True
+                        e2[nm] = v
+                    except Unknown:
+                        e2.pop(nm, None)
+                    nxt.append(e2)
+                elif isinstance(st, ast.AugAssign) and isinstance(st.target, ast.Name) and isinstance(st.op, (ast.Add, ast.Sub)):
+                    nm = st.target.id
+                    e2 = dict(e_)
+                    try:
+                        v = ev(ast.BinOp(ast.Name(nm, ast.Load()), st.op, st.value), e_)
+                        e2[nm] = v
+                        if nm == ip or nm in derived_names:
+                            derived_names.add(nm)
+                            normalised[0] = True
+                    except Unknown:
+                        e2.pop(nm, None)
+                    nxt.append(e2)
+                elif isinstance(st, ast.If):
+                    for branch, eb in refine(st.test, e_):
+                        if eb is not None:
+                            nxt += run(st.body if branch else st.orelse, eb)
+                elif isinstance(st, (ast.Return, ast.Raise)):
+                    check_uses(st, e_)
+                else:
+                    check_uses(st, e_)
+                    nxt.append(e_)
+            envs = nxt
+            if len(envs) > 64:
+                raise AnalysisError('TexArgs.insert: too many paths for R18.j')
+        return envs
+    run(strip_doc(fd.node.body), {ip: TOPI})
+    if not normalised[0]:
+        rr.notes.append('TexArgs.insert hands its index on without normalising it: nothing to check')
+        return rr
+    for node, (lo, hi), kind in sites:
+        top = (1, -1) if kind == 'subscript' else N
+        ok = _b_le((0, 0), lo) and _b_le(hi, top)
+        rr.ob(ok, {'use': norm(node)[:50], 'interval': [str(lo), str(hi)]})
+        if not ok:
+            rr.fail(Finding('R18.j', 'data', fd.qual, node, 'after the index normalisation of TexArgs.insert the index can '
+                            'still lie outside [0, len%s] (interval %s .. %s with n = len(self)): an index below -len is '
+                            'counted from the end a second time, so insert(-len-1, g) does not put g at the front as '
+                            'list.insert does' % (')' if kind == 'subscript' else ']', lo, hi), line=node.lineno))
+    return rr
